@@ -109,11 +109,11 @@ theorem shared_slot_counterexample :
   decide
 
 /-- per-run obligations: the three table operations are keyed by the goroutine id, `GetStub()`
-    reads the table, and the context is installed and removed (deferred) at exactly the three
-    sites the model knows. -/
+    reads the table, and the context is installed and removed (deferred) in exactly the two
+    functions the model knows (every install with a deferred removal — checked by the extractor). -/
 theorem facts_env :
     Foundation.Facts.envKeyedByGoid = ["delEnv:Delete", "getEnv:Load", "setEnv:Store"] ∧
-    Foundation.Facts.envInstallSites = ["Invoke:2", "InvokeContractMethod:1"] ∧
+    Foundation.Facts.envInstallSites = ["Invoke", "InvokeContractMethod"] ∧
     Foundation.Facts.getStubReadsEnv = 1 := by
   decide
 
